@@ -62,3 +62,12 @@ chk("C12", "exploration", "property-based testing (Hypothesis): generated sectio
     "documented forms are accepted. Search, not proof.",
     "Any exception is a rejection; None is allowed everywhere; colours checked for shape only; pow2 returns its input unconverted (repo test).",
     "DESIGN.md §4 C12")
+chk("C08", "exploration", "property-based testing (Hypothesis): generated coil limit configurations and request histories vs. an invariant over the recorded platform-driver calls",
+    "A generated coil configuration is booted on the virtual platform with every hw_driver method wrapped by a recorder; "
+    "generated histories of pulse/enable/timed_enable/disable calls, control events with generated kwargs, coil_player "
+    "entries, run-time changes of a template default and time gaps are applied. Every call reaching the driver must be "
+    "within max_pulse_ms / max_pulse_power / max_hold_power and holding only where allowed; a request with a negative or "
+    "over-limit parameter must raise and reach the driver with nothing; a software-timed pulse and a hold limited by "
+    "max_hold_duration must be followed by disable at their deadline whatever happens in between. Search, not proof.",
+    "Virtual platform interface (hardware pulse limit 255 ms); max_pulse_power 0 and NaN not generated; serial platforms' encoders not covered.",
+    "DESIGN.md §4 C08")
